@@ -218,3 +218,64 @@ def prose_pass(text):
         bad = sorted(calls & EVALUATORS)
         out.append((name, not bad, "calls " + ", ".join(bad) if bad else "calls only " + ", ".join(sorted(calls)) if calls else "calls nothing"))
     return out
+
+
+# ---------------------------------------------------------------------------------------------------------------------
+# inline evaluation inside prose: paragraph_element and comment (whole bodies)
+PROSE_MODEL = """
+#[derive(Clone, Copy, PartialEq, Eq, Structural)]
+pub struct Expression { pub id: u64 }
+#[derive(Clone, Copy, PartialEq, Eq, Structural)]
+pub enum Value { Empty, Other(u64) }
+impl Value { pub fn clone(&self) -> (r: Value) ensures r == *self, { *self } }
+pub struct MechError { pub id: u64 }
+pub enum ParagraphElement { EvalInlineMechCode(Expression), Text(u64), Other(u64) }
+pub struct Paragraph { pub elements: Vec<ParagraphElement> }
+pub struct Comment { pub paragraph: Paragraph }
+// an interpreter: the ghost list of EXPRESSIONS evaluated on it (no statement evaluator is reachable from here), the table of displayed outputs, the inline counter
+pub struct Interpreter { pub evals: Ghost<Seq<Expression>>, pub outs: Ghost<Map<u64, Value>>, pub counter: Ghost<nat> }
+pub uninterp spec fn ev(e: Expression, before: Seq<Expression>) -> Option<Value>;
+pub uninterp spec fn inline_id(n: nat) -> u64;
+#[verifier::external_body]
+pub fn expression(e: &Expression, env: Option<&u64>, p: &mut Interpreter) -> (r: Result<Value, MechError>)
+  ensures final(p).evals@ == old(p).evals@.push(*e), final(p).outs == old(p).outs, final(p).counter == old(p).counter,
+    (match r { Ok(v) => ev(*e, old(p).evals@) == Some(v), Err(_) => ev(*e, old(p).evals@) is None }),
+{ unimplemented!() }
+#[verifier::external_body]
+pub fn inline_eval_id(p: &mut Interpreter) -> (r: u64)
+  ensures r == inline_id(old(p).counter@), final(p).counter@ == old(p).counter@ + 1, final(p).evals == old(p).evals, final(p).outs == old(p).outs,
+{ unimplemented!() }
+#[verifier::external_body]
+pub fn not_executable_error() -> (e: MechError) { unimplemented!() }
+impl Interpreter {
+  #[verifier::external_body]
+  pub fn out_values_insert(&mut self, k: u64, v: Value) ensures final(self).outs@ == old(self).outs@.insert(k, v), final(self).evals == old(self).evals, final(self).counter == old(self).counter, { unimplemented!() }
+}
+"""
+
+
+def paragraph_element_fn(text):
+    """`paragraph_element` (whole body): error construction -> `not_executable_error()`; `MResult` -> `Result<_, MechError>`; the unreachable third arm `_ => todo!()` of the match on
+    the evaluation result is dropped (Ok / Err are exhaustive); `p: &Interpreter` -> `&mut` (ghost evaluation list)"""
+    sig, body = extract_fn(text, "paragraph_element")
+    b = re.sub(r"//[^\n]*", "", body[body.index("{") + 1:body.rindex("}")]).replace("\r", "")
+    b = re.sub(r"_\s*=>\s*todo!\(\)\s*,", "", b)
+    while True:
+        mm = re.search(r"\bErr\s*\(\s*MechError::new\(", b)
+        if not mm:
+            break
+        ee = match_brace(b, mm.start() + b[mm.start():].index("("), "(", ")")
+        b = b[:mm.start()] + "Err(not_executable_error())" + b[ee:]
+    b = re.sub(r"\bexpression\(\s*&expr\s*,", "expression(expr,", b)
+    if re.search(r"\b(MechError::new|todo!)\b", b):
+        raise AnchorLost("paragraph_element: statements outside the transcription rules")
+    return ("fn paragraph_element(element: &ParagraphElement, p: &mut Interpreter) -> (res: Result<(u64, Value), MechError>)\n"
+            "  ensures final(p).outs == old(p).outs,\n"
+            "    // only an inline `{{..}}` element evaluates anything, and what it evaluates is one EXPRESSION; its failure is displayed as the empty value, never raised\n"
+            "    (match *element {\n"
+            "       ParagraphElement::EvalInlineMechCode(e) => final(p).evals@ == old(p).evals@.push(e) && res == Ok::<(u64, Value), MechError>((inline_id(old(p).counter@), match ev(e, old(p).evals@) { Some(v) => v, None => Value::Empty })),\n"
+            "       _ => final(p).evals == old(p).evals && res is Err }),\n{\n" + b + "\n}\n")
+
+
+def prose_unit(text):
+    return "use vstd::prelude::*;\nverus! {\n" + PROSE_MODEL + paragraph_element_fn(text) + vlib.verus_canary("canary_c10_prose", "x: u64", []) + "\n} // verus!\nfn main() {}\n"
